@@ -130,7 +130,8 @@ class ComponentLevel2( ComponentLevel1 ):
     # I refactor the process of materializing objects in this function
     # Pass in the func as well for error message
 
-    def extract_obj_from_names( func, names, update_ff=False, is_write=False ):
+    def extract_obj_from_names( func, names, update_ff=False, is_write=False,
+                                is_func_write=False ):
 
       def expand_array_index( obj, name_depth, node_depth, idx_depth, idx ):
         """ Find s.x[0][*][2], if index is exhausted, jump back to lookup_variable """
@@ -233,6 +234,14 @@ class ComponentLevel2( ComponentLevel1 ):
           lookup_variable( s, 1, 1 )
 
           if not is_write or not objs:
+            # '<<=' inside a function only makes sense when an update_ff
+            # block calls it, and like in the block itself a bit or slice
+            # of a signal on its left would silently never be committed
+            if is_func_write and isinstance( op, ast.LShift ):
+              for x in objs:
+                if isinstance( x, Signal ) and \
+                   ( x.is_sliced_signal() or x in part_objs ):
+                  raise UpdateFFNonTopLevelSignalError( s, func, nodelist[0].lineno )
             all_objs |= objs
             continue
 
@@ -316,7 +325,8 @@ class ComponentLevel2( ComponentLevel1 ):
     s._dsl.func_calls  = {}
     for name, func in s._dsl.name_func.items():
       s._dsl.func_reads [ func ] = extract_obj_from_names( func, name_rd[ name ] )
-      s._dsl.func_writes[ func ] = extract_obj_from_names( func, name_wr[ name ] )
+      s._dsl.func_writes[ func ] = extract_obj_from_names( func, name_wr[ name ],
+                                                           is_func_write=True )
       s._dsl.func_calls [ func ] = extract_obj_from_names( func, name_fc[ name ] )
 
     s._dsl.upblk_reads  = {}
